@@ -110,6 +110,100 @@ def _run_z3py(smt2, timeout_ms):
     return str(r), model, dt
 
 
+_dl_counter = [0]
+
+
+def _has_free_var(t, depth, memo):
+    """does t mention a de Bruijn variable bound outside `depth` enclosing binders?"""
+    key = (t.get_id(), depth)
+    if key in memo:
+        return memo[key]
+    if z3.is_var(t):
+        r = z3.get_var_index(t) >= depth
+    elif z3.is_quantifier(t):
+        r = _has_free_var(t.body(), depth + t.num_vars(), memo)
+    else:
+        r = any(_has_free_var(c, depth, memo) for c in t.children())
+    memo[key] = r
+    return r
+
+
+def _closed_lambdas(t, depth, out, seen, memo):
+    """innermost-first list of lambda subterms of t that are closed (usable as global definitions)"""
+    key = (t.get_id(), depth)
+    if key in seen:
+        return
+    seen.add(key)
+    if z3.is_quantifier(t):
+        _closed_lambdas(t.body(), depth + t.num_vars(), out, seen, memo)
+        if t.is_lambda() and not _has_free_var(t, 0, memo) and depth == 0:
+            out.append(t)
+        return
+    for c in t.children():
+        _closed_lambdas(c, depth, out, seen, memo)
+
+
+def delambda(assertions):
+    """equisatisfiable lambda-free form: every closed (lambda k. body) becomes a fresh array constant A with the
+    definition (forall k. A[k] = body).  z3 answers `unknown` (incomplete theory array) on satisfiable formulas that
+    contain lambdas, and cvc5 1.0 cannot read them; with quantified definitions both can produce models."""
+    fs = list(assertions)
+    defs = []
+    for _round in range(8):
+        lams, seen, memo = [], set(), {}
+        for f in fs:
+            _closed_lambdas(f, 0, lams, seen, memo)
+        if not lams:
+            break
+        uniq = {}
+        for l in lams:
+            uniq.setdefault(l.get_id(), l)
+        # innermost first: a lambda that contains no other closed lambda
+        subs = []
+        for l in uniq.values():
+            inner, s2, m2 = [], set(), {}
+            _closed_lambdas(l.body(), l.num_vars(), inner, s2, m2)
+            _dl_counter[0] += 1
+            a = z3.Const('lam!%d' % _dl_counter[0], l.sort())
+            vs = [z3.Const('lk!%d!%d' % (_dl_counter[0], i), l.var_sort(i)) for i in range(l.num_vars())]
+            body = z3.substitute_vars(l.body(), *reversed(vs))
+            sel = z3.Select(a, *vs)
+            defs.append(z3.ForAll(vs, sel == body, patterns=[sel]))
+            subs.append((l, a))
+        fs = [z3.substitute(f, *subs) for f in fs]
+        defs = [z3.substitute(d, *subs) for d in defs]
+    return fs + defs
+
+
+def _run_z3py_nolambda(smt2, timeout_ms):
+    """second attempt on the lambda-free form; returns (status, model, seconds, smt2 text of that form or None)"""
+    s0 = z3.Solver()
+    s0.from_string(smt2)
+    fs = s0.assertions()
+    if 'lambda' not in smt2:
+        return 'unknown', None, 0.0, None
+    nf = delambda(fs)
+    s1 = z3.Solver()
+    for f in nf:
+        s1.add(f)
+    # z3's substitution rewrites seq.nth into ite(in-range, seq.nth_i, seq.nth_u); both branches are seq.nth again
+    txt = s1.to_smt2().replace('seq.nth_i', 'seq.nth').replace('seq.nth_u', 'seq.nth')
+    s = z3.Solver()
+    s.set('timeout', timeout_ms)
+    s.from_string(txt)
+    t0 = time.time()
+    r = s.check()
+    dt = time.time() - t0
+    model = None
+    if r == z3.sat:
+        m = s.model()
+        model = {}
+        for d in m.decls():
+            if d.arity() == 0 and not d.name().startswith(('lam!', 'lk!')):
+                model[d.name()] = _pyval(m[d], m)
+    return str(r), model, dt, txt
+
+
 def _run_cli(cmd, smt2, timeout_s):
     with tempfile.NamedTemporaryFile('w', suffix='.smt2', delete=False, dir=os.environ.get('VERIF_TMP')) as f:
         f.write(smt2)
@@ -276,9 +370,19 @@ def discharge_one(job):
         r, model, dt = 'error:%s' % e, None, 0.0
     res['tried'].append(('z3-%s' % z3.get_version_string(), r, round(dt, 3)))
     res['time_s'] += dt
+    nolam = None
+    if r not in ('sat', 'unsat') and 'lambda' in smt2:
+        try:
+            r, model, dtn, nolam = _run_z3py_nolambda(smt2, timeout_ms)
+        except Exception as e:
+            r, model, dtn, nolam = 'error:%s' % e, None, 0.0, None
+        res['tried'].append(('z3-%s/no-lambda' % z3.get_version_string(), r, round(dtn, 3)))
+        res['time_s'] += dtn
     if r in ('sat', 'unsat'):
         res.update(status=r, solver='z3-%s' % z3.get_version_string(), model=model)
     else:
+        if nolam is not None:
+            smt2 = nolam
         txt = '(set-logic ALL)\n' + smt2
         r2, dt2 = _run_cli([CVC5, '--strings-exp', '--tlimit=%d' % timeout_ms], txt, timeout_ms / 1000.0)
         res['tried'].append(('cvc5-1.0.3', r2, round(dt2, 3)))
